@@ -23,6 +23,7 @@ RULES_DOC["R6"] = "= C12.R4: revive clears every pending request (a migration re
 RULES_DOC["X4"] = common.X4_DOC
 RULES_DOC["R7"] = "= C06.R1/R3/R4: a unit that migrates inside a switch is counted on the right pool before and after (the migration target can be joined)"
 RULES_DOC["R8"] = "migrate_to_sched / migrate_to_xstream reject a unit that already is in ANY pool of the target scheduler: the comparison with the unit's pool sits inside a loop over the scheduler's pools (sibling agreement)"
+RULES_DOC["R9"] = "a migration callback given in the creation attribute is recorded whenever it is non-NULL (its installation depends on the callback pointer only, not on whether the unit is migratable yet -- migratability can be switched on later)"
 RULES_DOC.update({
     "R1": "thread_migrate_to_pool: target pool stored before REQ_MIGRATE is set; nothing set on the error path",
     "R2": "handle_request_migrate: set_associated_pool once -> callback (<=1, only if registered, with the unit's handle and the registered argument) -> unset REQ_MIGRATE; error paths do nothing else",
@@ -379,6 +380,27 @@ def rule_R8(P, rep):
                site="%s/all-pools" % fn)
 
 
+def rule_R9(P, rep):
+    from abtverif import ctrldep
+    F = P.fn("ythread_create", "src/thread.c")
+    st = [i for _b, i, lh, rh in F.stores() if F.field_of(lh) == ("ABTI_thread_mig_data", "f_migration_cb")]
+    rep.need(st, "ythread_create does not record the attribute's migration callback")
+    for i in st:
+        gov = []
+        for lab, val, a in ctrldep.conditions(F, i):
+            A = F.blocks[a]
+            others = [x for j, x in enumerate(A.succs) if x is not None]
+            # keep the tests that are not error exits / assertions / the attribute being present
+            if "f_cb" in lab or lab.endswith("::f_cb"):
+                continue
+            if any(F.blocks[o].noret for o in others):
+                continue
+            if re.search(r"type|migratable|MIGRATABLE", lab):
+                gov.append((lab, val))
+        rep.ob("R9", "ythread_create records the attribute's callback whenever it is given", not gov,
+               "the callback is recorded only if %s" % gov, loc=F.loc(i), site="ythread_create/attr-callback")
+
+
 def run(P, rep, tier):
     common.rule_X4(P, rep)
     common.run_shared(P, rep, which=("X2",))
@@ -392,3 +414,4 @@ def run(P, rep, tier):
     common.borrow(rep, P, C06.rule_R1_R3_R4, "R7")
     common.borrow(rep, P, C06.rule_R2, "R7")
     rule_R8(P, rep)
+    rule_R9(P, rep)
